@@ -72,6 +72,10 @@ type Prop[C any] struct {
 	// is fatal in Go): such a case is saved and announced before it runs, so that the driver can
 	// name it if the process dies.
 	Risky func(c C) bool
+	// MustTerminate marks cases for which the statement itself says that the call returns or
+	// panics (e.g. "any other byte causes a panic"): a watchdog timeout on such a case is a
+	// violation (the call hangs), not an inconclusive run.
+	MustTerminate func(c C) bool
 }
 
 type environ struct {
@@ -346,14 +350,15 @@ func (r *runner[C]) watchdog() chan struct{} {
 			os.MkdirAll(r.env.replays, 0o755)
 			os.WriteFile(path, js, 0o644)
 			kind := "VERIF-TIMEOUT"
-			if r.p.TerminationIsProperty {
+			terminationStated := r.p.TerminationIsProperty || (r.p.MustTerminate != nil && r.p.MustTerminate(*c))
+			if terminationStated {
 				kind = "VERIF-FAIL"
 				r.rec.Fail(rec.Failure{Stage: r.stage, Msg: "case did not terminate within " + r.env.caseTimeout.String(), Replay: path})
 			}
 			fmt.Printf("%s property=%s stage=%s replay=%s msg=%s\n", kind, r.p.ID, r.stage, path,
 				strconv.Quote("case did not terminate within "+r.env.caseTimeout.String()))
 			r.rec.Dump(r.env.out)
-			if r.p.TerminationIsProperty {
+			if terminationStated {
 				os.Exit(1)
 			}
 			os.Exit(3)
